@@ -92,6 +92,17 @@ FILTERS = [
     {"e": "!", "a": {"e": "||", "a": {"e": "=", "a": ev("y"), "b": ec(N(1))}, "b": {"e": "=", "a": ev("z"), "b": ec(N(2))}}},
     {"e": "sameterm", "a": ev("y"), "b": ev("z")},
     {"e": "isliteral", "a": ev("y")},
+    # a bare variable as an operand of || / && / !: unbound, it is an error of that operand only; bound, it has an effective boolean value
+    {"e": "||", "a": ev("nope"), "b": {"e": "=", "a": ev("y"), "b": ec(N(1))}},
+    {"e": "||", "a": {"e": "=", "a": ev("y"), "b": ec(N(1))}, "b": ev("z")},
+    {"e": "!", "a": {"e": "&&", "a": ev("z"), "b": {"e": "=", "a": ev("y"), "b": ec(N(2))}}},
+    {"e": "&&", "a": ev("y"), "b": {"e": "!", "a": ev("nope")}},
+    # IN / NOT IN with unbound and erroring members
+    {"e": "in", "neg": False, "a": ev("y"), "args": [ev("nope"), ec(N(1)), ev("z")]},
+    {"e": "in", "neg": True, "a": ev("y"), "args": [ev("z"), ec(N(1))]},
+    {"e": "in", "neg": True, "a": ev("y"), "args": [{"e": "+", "a": ev("x"), "b": ec(N(1))}, ec(N(2))]},
+    {"e": "in", "neg": False, "a": ev("y"), "args": []},
+    {"e": "in", "neg": True, "a": ev("nope"), "args": []},
 ]
 
 
@@ -229,7 +240,11 @@ def rand_expr(rng, vars_, depth=2):
     v = lambda: ev(rng.choice(vars_ + ["nope"]))
     c = lambda: ec(rng.choice(CONSTS))
     if depth == 0 or r < 0.45:
-        k = rng.choice(["=", "!=", "<", ">", "<=", ">=", "bound", "isiri", "isliteral", "sameterm"])
+        k = rng.choice(["=", "!=", "<", ">", "<=", ">=", "bound", "isiri", "isliteral", "sameterm", "in", "barevar"])
+        if k == "in":
+            return {"e": "in", "neg": rng.random() < 0.5, "a": v(), "args": [rng.choice([v, c])() for _ in range(rng.randint(0, 3))]}
+        if k == "barevar":
+            return v()
         if k in ("<", ">", "<=", ">="):
             return {"e": k, "a": v(), "b": rng.choice([v, lambda: ec(rng.choice(LITS))])()}
         if k == "bound":
